@@ -68,6 +68,12 @@ def check(ctx, report):
     decoders_by_evaluation(ctx, report, RULE='C15.R7')
     factory_overrides(ctx, report, RULE='C15.R7')
     report.floor('C15.R7', 100, 'evaluated code points')
+    # the version and the lists the fingerprint reads are the ones compose writes: a composer that writes a constant in place of an
+    # attribute for some of its values gives bytes whose fingerprint differs from the fingerprint of the object (shared with C01.R2)
+    from .c11 import fields_written_as_stored
+    fields_written_as_stored(ctx, report, RULE='C15.R8', kinds=None, modules={'cryptoparser.tls.subprotocol', 'cryptoparser.tls.extension'},
+                             title='hello and extensions: attributes are composed as stored (the fingerprint of the composed bytes is the fingerprint of the object)')
+    report.floor('C15.R8', 200, 'fields of hello and extension structures')
     c = model.cls('TlsHandshakeClientHello')
     f = c.methods.get('ja3')
     if f is None:
